@@ -192,10 +192,8 @@ fn parse_time_str(timestamp: &str) -> u64 {
     let dot_idx = timestamp.find('.').unwrap_or(timestamp.len());
 
     let timestamp_secs_us: u64 =
-        timestamp[0..dot_idx]
-            .parse::<u64>()
-            .unwrap_or_default()
-            .saturating_mul(US_PER_SEC);
+        // we parse as u32 (so max ~136 years). Larger values are treated as parsing error.
+        (timestamp[0..dot_idx].parse::<u32>().unwrap_or_default() as u64) * US_PER_SEC;
 
     let timestamp_fraction_us = if dot_idx < timestamp.len() {
         let timestamp_fraction_str = &timestamp[dot_idx + 1..];
@@ -398,7 +396,7 @@ where
                                     )
                                     .num_microseconds()
                                     .unwrap_or_default()
-                                    as u64;
+                                    .max(0) as u64;
                                 self.threadtime_last_monotonic_timestamp = timestamp_us;
                                 (
                                     timestamp_us,
